@@ -40,6 +40,18 @@ def snapshot():
     return pure(eng.state.get_value())
 
 
+def uid_paths():
+    """{uid: path} of every probe currently in the hierarchy."""
+    eng = ENGINE
+    if eng is None or not hasattr(eng, 'state'):
+        return {}
+    out = {}
+    for path, node in eng.state.depth(
+            filter_function=lambda x: isinstance(x.value, Process)):
+        out[getattr(node.value, 'uid', None)] = path
+    return out
+
+
 def pure(v):
     if isinstance(v, dict):
         return {k: pure(x) for k, x in v.items()}
@@ -277,7 +289,8 @@ class ProbeEmitter(Emitter):
                    data.get('data')) if data.get('table') == 'history'
                else None,
                'clock': now(),
-               'snapshot': snapshot()}
+               'snapshot': snapshot(),
+               'paths': uid_paths()}
         self.records.append(rec)
         log('emit', rec['table'],
             rec['data'].get('time') if rec['data'] else None, now())
